@@ -297,6 +297,10 @@ def gen_scenario(rng, prof=None, force_selflock=None):
         for e_ in [spec['motor']] + spec['chain']:
             if rng.random() < 0.6:
                 e_['subclass'] = True                                  # a trivial user subclass of the element class
+    if rng.random() < 0.2:
+        for e_ in spec['chain']:
+            if e_['type'] in ('spur', 'helical') and rng.random() < 0.6:
+                e_['positional'] = True                                # constructor arguments passed positionally in the documented order
     if rng.random() < 0.15:
         for e_ in [spec['motor']] + spec['chain']:
             e_['explicit_none'] = True                                 # absent optional data passed explicitly as None
